@@ -67,13 +67,10 @@ def gdb_walk(ctx, rep, k):
         script.append(extra)
         cmds += at
     segs, raw = e3.run_scenario(lines, argv=('-C', '-b', btext), commands=cmds)
-    probes = []
-    for ln_ in raw.split('\n'):
-        if 'exited normally' in ln_ or 'exited with' in ln_ or ln_.startswith('@@ end'):
-            break           # after the program has finished the probe only reads the executable's initial value
-        mm = re.match(r'^\$\d+ = (\d+)$', ln_)
-        if mm:
-            probes.append(int(mm.group(1)))
+    # where the program was found halted: the probe prints the scenario line of the operation in progress (gdb prints it on
+    # its stdout, the plugin writes to stderr: only the values are used, never their position among the other lines; after
+    # the program has finished the probe reads 0 or -1 and is ignored)
+    probes = [int(x) for x in re.findall(r'^\$\d+ = (\d+)$', raw, re.M) if int(x) > 0]
     return closures, ops, segs, probes, script, btext, raw
 
 
